@@ -133,7 +133,7 @@ SPEC = {
         C("gold", "bracket", "const double golden_ratio = @;", "dec", "1.618034", "golden_ratio"),
         C("glimit", "bracket", "double GLIMIT = @;", "dec", "100.0", "GLIMIT"),
         C("tinyBracket", "bracket", "double TINY = @;", "dec", "1.0e-20", "TINY of Bracket"),
-        C("itmax", "brent", "const int ITMAX = @;", "nat", "100", "ITMAX of Brent::Minimize"),
+        C("itmax", "brent", "const int ITMAX = @;", "nat", "20000", "ITMAX of Brent::Minimize"),
         C("cgold", "brent", "const double CGOLD = @;", "dec", "0.3819660", "CGOLD"),
         C("zeps", "brent", "const double ZEPS = @;", "eps", "std::numeric_limits<double>::epsilon()", "ZEPS", EPS_OR_LIT),
         C("nmax", "neldermead", "const int NMAX = @;", "nat", "5000", "NMAX of Minimization::minimize"),
